@@ -347,14 +347,19 @@ def rule_E3(ctx):
                         if isinstance(s, ast.Assign) and ast.unparse(s.targets[0]) == P and 'options.bytealigned' in ast.unparse(s.value):
                             clean.add(f'{P}@' + str(x.lineno))
                     # statement form of the conditional expression: if P is None: t = options.bytealigned else: t = P
-                    ta = [s for s in pbody if isinstance(s, ast.Assign) and len(s.targets) == 1 and isinstance(s.targets[0], ast.Name)
-                          and 'options.bytealigned' in ast.unparse(s.value)]
-                    tb = [s for s in pelse if isinstance(s, ast.Assign) and len(s.targets) == 1 and isinstance(s.targets[0], ast.Name) and ast.unparse(s.value) == P]
-                    if ta and tb and ta[0].targets[0].id == tb[0].targets[0].id:
-                        if ta[0].targets[0].id == P:
+                    def tv(s_):
+                        if isinstance(s_, ast.Assign) and len(s_.targets) == 1 and isinstance(s_.targets[0], ast.Name):
+                            return s_.targets[0].id, s_.value
+                        if isinstance(s_, ast.AnnAssign) and isinstance(s_.target, ast.Name) and s_.value is not None:
+                            return s_.target.id, s_.value
+                        return None, None
+                    ta = [tv(s_)[0] for s_ in pbody if tv(s_)[0] and 'options.bytealigned' in ast.unparse(tv(s_)[1])]
+                    tb = [tv(s_)[0] for s_ in pelse if tv(s_)[0] and ast.unparse(tv(s_)[1]) == P]
+                    if ta and tb and ta[0] == tb[0]:
+                        if ta[0] == P:
                             clean.add(f'{P}@' + str(x.lineno))
                         else:
-                            clean.add(ta[0].targets[0].id)
+                            clean.add(ta[0])
         resolved_in_place = [int(c2.split('@')[1]) for c2 in clean if c2.startswith(f'{P}@')]
         bad = None
         for cs in fa.calls:
@@ -723,7 +728,8 @@ def rule_D2(ctx):
             raise AnalysisError(f'{sf.key}: encoder helper not recognised')
         h = m.modfuncs['bitstore_helpers'][helpers[0]]
         v = h.params()[0]
-        gd = G.find_guard(h, lambda t: G.test_is_negative(t, v), exc={'CreationError', 'ValueError'})
+        names_v = G.rebound_names(h, v)          # the parameter, or the local holding its int() conversion
+        gd = G.find_guard(h, lambda t: any(G.test_is_negative(t, nm_) for nm_ in names_v), exc={'CreationError', 'ValueError'})
         if gd is None:
             r.fail(h.key, f'{v} < 0 guard', f"the unsigned code '{e['name']}' must reject negative values", loc=h.loc(), extra={'props': ['C10', 'C15']})
         else:
